@@ -156,7 +156,7 @@ def capStep (d : CapDict) (caps : Bytes) : CapStep :=
       | none => .err indexError                                -- `value = caps[3]`
       | some v =>
         if Py.fromLE (caps.take 2) = capTemperatures then
-          if sizeB.toNat < 6 then .next d caps                  -- CODE: `continue` without advancing
+          if sizeB.toNat < 6 then .next d (caps.drop (3 + sizeB.toNat))   -- skipped (advances since fix 'advance past an undersized TEMPERATURES')
           else capTempRecord d caps sizeB.toNat
         else .next (applyReaders d rs v.toNat) (caps.drop (3 + sizeB.toNat))
 
